@@ -2988,7 +2988,7 @@ func objectCases() []objectCase {
 		{"2147483648", int64(2147483648), false}, {"-9999999999", int64(-9999999999), false}, {"4294967296", int64(4294967296), false},
 		{"3.14", 3.14, false}, {"-.002", -0.002, false}, {"+.5", 0.5, false}, {".5", 0.5, false}, {"5.", 5.0, false}, {"0.0", 0.0, false}, {"-2.5", -2.5, false}, {"123456789.125", 123456789.125, false},
 		{"(abc)", "abc", false}, {"()", "", false}, {"(a(b)c)", "a(b)c", false}, {"(a\\(b\\)c)", "a(b)c", false}, {"(\\n\\r\\t\\b\\f\\\\)", "\n\r\t\b\f\\", false},
-		{"(\\101\\7\\0053)", "A\a\x053", false}, {"(line\\\nbreak)", "linebreak", false}, {"(abc\\\n\ndef)", "abc\ndef", false}, {"(line\\\r\nbreak)", "linebreak", false}, {"(\xe9\xff\x80)", "\xe9\xff\x80", false}, {"(a b  c)", "a b  c", false}, {"(% not a comment)", "% not a comment", false}, {"(\\q)", "q", false},
+		{"(\\101\\7\\0053)", "A\a\x053", false}, {"(\\128)", "\n8", false}, {"(\\19)", "\x019", false}, {"(\\779)", "?9", false}, {"(line\\\nbreak)", "linebreak", false}, {"(abc\\\n\ndef)", "abc\ndef", false}, {"(line\\\r\nbreak)", "linebreak", false}, {"(\xe9\xff\x80)", "\xe9\xff\x80", false}, {"(a b  c)", "a b  c", false}, {"(% not a comment)", "% not a comment", false}, {"(\\q)", "q", false},
 		{"<48656C6C6F>", "Hello", false}, {"<48 65 6c\n6C 6F>", "Hello", false}, {"<4>", "@", false}, {"<>", "", false}, {"<E9FF>", "\xe9\xff", false},
 		{"/Name", pdfName("Name"), false}, {"/A#20B", pdfName("A B"), false}, {"/#2F", pdfName("/"), false}, {"/a.b-c_d", pdfName("a.b-c_d"), false}, {"/#E9t#C3#A9", pdfName("\xe9t\xc3\xa9"), false},
 		{"[1 2 3]", []any{int64(1), int64(2), int64(3)}, false}, {"[]", []any{}, false}, {"[1[2]3]", []any{int64(1), []any{int64(2)}, int64(3)}, false},
@@ -4364,7 +4364,7 @@ func ruleExportNotTrimmed(c *eng.Ctx) {
 // R5.22 [C05]
 func ruleASCIIChainsEvaluated(c *eng.Ctx) {
 	const R = "R5.22-ASCII-CHAINS-EVALUATED"
-	c.Rule(R, "core.(*Stream).Decode, evaluated on streams whose /Filter is a name, a one-element array or a chain of two or three of ASCIIHexDecode, ASCII85Decode and FlateDecode (full names and the abbreviations AHx, A85 and Fl, with and without a /DecodeParms array of nulls, with /Predictor 12 parameters given as a dictionary for a single filter and as the entry of the stage's own position in the array - first, second or middle stage, also for one of two FlateDecode stages), the data encoded by reference encoders in the order the chain undoes it: the answer is the original bytes - the stages run in array order, each on the output of the one before", 1, 0)
+	c.Rule(R, "core.(*Stream).Decode, evaluated on streams whose /Filter is a name, a one-element array or a chain of two or three of ASCIIHexDecode, ASCII85Decode and FlateDecode (full names and the abbreviations AHx, A85 and Fl, with and without a /DecodeParms array of nulls, with /Predictor 12 parameters given as a dictionary for a single filter and as the entry of the stage's own position in the array - first, second or middle stage, also for one of two FlateDecode stages, and as one-element /Filter and /DecodeParms arrays), the data encoded by reference encoders in the order the chain undoes it: the answer is the original bytes - the stages run in array order, each on the output of the one before", 1, 0)
 	dec := c.P.FuncExact("core.(*Stream).Decode")
 	streamT, dictT, arrT, nameT := c.P.NamedType("core", "Stream"), c.P.NamedType("core", "Dict"), c.P.NamedType("core", "Array"), c.P.NamedType("core", "Name")
 	nullT := c.P.NamedType("core", "Null")
@@ -4400,6 +4400,7 @@ func ruleASCIIChainsEvaluated(c *eng.Ctx) {
 		{chain: []string{"AHx", "A85"}, asName: false, parms: true}, {chain: []string{"A85", "AHx", "A85"}, asName: false, parms: false}, {chain: []string{"AHx", "AHx"}, asName: false, parms: true},
 		{chain: []string{"FlateDecode"}, asName: true}, {chain: []string{"Fl"}},
 		{chain: []string{"FlateDecode"}, asName: true, single: true, pred: []bool{true}},
+		{chain: []string{"FlateDecode"}, parms: true, pred: []bool{true}}, {chain: []string{"Fl"}, parms: true, pred: []bool{true}},
 		{chain: []string{"ASCII85Decode", "FlateDecode"}, parms: true, pred: []bool{false, true}},
 		{chain: []string{"FlateDecode", "ASCIIHexDecode"}, parms: true, pred: []bool{true, false}},
 		{chain: []string{"FlateDecode", "FlateDecode"}, parms: true, pred: []bool{true, false}},
